@@ -7,4 +7,10 @@ META = {
         "note": "Trusted: Lean kernel; the go/ast extractor (validated by complete enumeration against the real functions); is.DebugMode == states.Env().GetDebugMode(); Go method promotion through *logimp.",
         "technique": "Lean 4 theorems over regenerated decision function + entry-point table (decide), induction over histories; exhaustive differential run",
     },
+    "C11": {
+        "text": "Proof: with the setters and the per-record mode derivation regenerated from the source, the pair (useJSON,useColor) is never (true,true) in any reachable state, every sequence of mode calls (any variadic argument lists) refines the three-state machine of the statement (induction over the sequence), getters and encoder choice agree with the state, and a call on one logger leaves the others alone. Exhaustive correspondence over call sequences.",
+        "design_ref": "DESIGN.md §7 C11",
+        "note": "Trusted: Lean kernel; extractor; that With*/New-options apply the same setter bodies to a child that starts with its parent's bits (checked by the correspondence, proved for the tree model in C10).",
+        "technique": "Lean 4 refinement proof (induction over call sequences) on regenerated setters; exhaustive differential enumeration",
+    },
 }
